@@ -402,6 +402,38 @@ func genC06(r *rand.Rand, tier string) []Case {
 		c.Steps = append(c.Steps, dbStep{Op: "put", K: keys[2], V: []byte("late")}, dbStep{Op: "rotate"}, dbStep{Op: "put", K: keys[3], V: []byte("late")}, dbStep{Op: "rotate"}, dbStep{Op: "compact"})
 		cases = append(cases, c)
 	}
+	// holes in the table numbering: a compaction that leaves the NEWEST table out (it is over the size limit) puts its
+	// result into the oldest slot; after a restart newer tables must still get names behind the one left out, or the next
+	// restart loads them in the wrong age order
+	nh := 4
+	if tier == "thorough" {
+		nh = 60
+	}
+	for i := 0; i < nh; i++ {
+		var keys [][]byte
+		for k := 0; k < 5; k++ {
+			keys = append(keys, []byte(fmt.Sprintf("key%02d", k)))
+		}
+		c := &c06Case{Keys: keys}
+		c.Opts = dbOpts{MemstoreBytes: 1 << 30, Threshold: i % 2, MaxSize: 300, RatioPct: 100, WBuf: 4096, RBuf: 4096}
+		bigv := func() []byte { v := make([]byte, 500+r.Intn(300)); r.Read(v); return v }
+		for t := 0; t < 3+i%2; t++ { // at least three, so that the first table written after the restart does not collide with the one left out
+			c.Steps = append(c.Steps, dbStep{Op: "put", K: keys[1+t%3], V: []byte(fmt.Sprintf("small%d", t))}, dbStep{Op: "rotate"})
+		}
+		c.Steps = append(c.Steps, dbStep{Op: "put", K: keys[0], V: []byte("in-the-table-left-out")}, dbStep{Op: "put", K: keys[4], V: bigv()}, dbStep{Op: "rotate"}, dbStep{Op: "compact"})
+		o := c.Opts
+		c.Steps = append(c.Steps, dbStep{Op: "reopen", Opts: &o})
+		if i%2 == 0 {
+			c.Steps = append(c.Steps, dbStep{Op: "del", K: keys[0]})
+		} else {
+			c.Steps = append(c.Steps, dbStep{Op: "put", K: keys[0], V: []byte("after-the-restart")})
+		}
+		if i%4 < 2 {
+			c.Steps = append(c.Steps, dbStep{Op: "rotate"})
+		}
+		c.Steps = append(c.Steps, dbStep{Op: "reopen", Opts: &o}, dbStep{Op: "reopen", Opts: &o}, dbStep{Op: "compact"})
+		cases = append(cases, c)
+	}
 	return cases
 }
 
